@@ -13,6 +13,7 @@
 //   "S warmup" (and nothing else) when a single item submitted to an idle global queue did not run within 10 s
 //   "I <id> <runs>" for every item whose run count is not exactly 1 (none expected), "N <items> <sum of runs>"
 //   "B <waiters> <pool_before> <pool_min> <distinct_worker_threads> <elapsed_ms> <finished>"   (mode blocked)
+//   "F <head> <tail> <pending> <pool size> <dsema_value>" the words of the queue when the recording stopped
 //   "L <1 if the 25 s budget of a flood / ping-pong run was exhausted>"
 //   then the recorder dump: obj 1 = the queue structure, obj 2 = dpq_thread_mediator from dsema_value on,
 //   obj 0 = every other atomic of the process (offset = absolute address; the check keeps do_next of queued items).
@@ -193,6 +194,9 @@ int main(int argc, char **argv) {
 	atomic_store(&dv_enabled, 0);
 	long n = atomic_load(&next_id), sum = 0;
 	for (long i = 0; i < n && i < MAXITEMS; i++) { int c = atomic_load(&runs[i]); sum += c; if (c != 1) printf("I %ld %d\n", i, c); }
+	{ dispatch_pthread_root_queue_context_t pqc2 = gq->do_ctxt; dispatch_semaphore_t sm2 = &pqc2->dpq_thread_mediator;
+	  printf("F %llu %llu %d %d %ld\n", (unsigned long long)(uintptr_t)gq->dq_items_head, (unsigned long long)(uintptr_t)gq->dq_items_tail,
+		gq->dgq_pending, gq->dgq_thread_pool_size, (long)sm2->dsema_value); }   // the words of the queue when the recording stopped
 	printf("N %ld %ld\n", n, sum);
 	printf("L %d\n", atomic_load(&deadline_hit));
 	dv_dump(stdout);
